@@ -14,7 +14,7 @@ pub struct RunOpts {
     pub stamp: bool,
     pub match_links: bool,
     pub record_links: bool,
-    pub crash: Option<(u32, i64)>,
+    pub crash: Option<(u32, u64)>,
     pub watchdog: Option<Watchdog>,
 }
 
